@@ -3,6 +3,7 @@ import Pdpy11.Driver.Rad50
 import Pdpy11.Driver.Bk
 import Pdpy11.Driver.Insn
 import Pdpy11.Driver.Ea
+import Pdpy11.Driver.Directive
 namespace Pdpy11.Driver
 
 def handle (line : String) : String :=
@@ -17,6 +18,9 @@ def handle (line : String) : String :=
     | "bkdec" => handleBkDec args
     | "insn" => handleInsn args
     | "ea" => handleEa args
+    | "dir" => handleDir args
+    | "wlist" => handleWordList args
+    | "asize" => handleAnnounced args
     | "ping" => "pong"
     | _ => "bad-op"
 
